@@ -4,6 +4,7 @@
 From Coq Require Import ZArith List Bool String.
 From VQ Require Import Num Model.Vec Model.Core Model.Machine Proofs.CorePure Glue.CoreGlue.
 From VQ Require Import Glue.Pin_w_euclid Glue.Pin_w_cosine Glue.Pin_w_vq Glue.Pin_w_fsq Glue.Pin_w_lfq Glue.Pin_w_simvq Glue.Pin_w_rpq Glue.Pin_w_rvq Glue.Pin_w_rfsq Glue.Pin_w_rlfq Glue.Pin_w_rsvq Glue.Pin_w_lq Glue.Pin_o_rpq_eval.
+From VQ Require Import Model.History Proofs.HistoryProofs.
 Import ListNotations.
 
 Theorem C08_call_pure :
@@ -270,3 +271,17 @@ Theorem C08_rpq_forces_eval :
   o_rpq_eval.o_rpq_eval = pinned_o_rpq_eval.
 Proof. exact (@pin_o_rpq_eval). Qed.
 Print Assumptions C08_rpq_forces_eval.
+
+(* implicit *)
+Theorem C08_history_with_writes_ignores_pure :
+  forall (F : Type) (o : ops F) (fsqrt : F -> F) (cfg : ccfg F) (s : cstate F) (hs : list (hop F)),
+       @initted F s = true ->
+       @Forall (hop F)
+         (fun h : hop F => match h with
+                           | HStep _ => True
+                           | HWrite s' => @initted F s' = true
+                           end) hs ->
+       @hrun F o fsqrt cfg s hs =
+       @hrun F o fsqrt cfg s (@filter (hop F) (fun h : hop F => negb (@hop_pure F h)) hs).
+Proof. exact (@HistoryProofs.history_ignores_pure). Qed.
+Print Assumptions C08_history_with_writes_ignores_pure.
